@@ -6,10 +6,11 @@ CONSTANTS
   Min = 2
   UMin = 8
   Interval = 4
-  Deltas = {1, 2, 4, 16}
+  Deltas = {1, 4, 16}
   MaxChanges = 1
   MaxCancels = 1
   SkipCancelled = TRUE
+  FastPath = FALSE
   Timely = TRUE
   StaleFullBucket = TRUE
   StaleRateOnChange = FALSE
